@@ -94,6 +94,13 @@ mut("c19_zi_walk_unwraps_non_utf8_name", "C19", "panic|open_failed", [(ZI,
  "                    Err(err) => {\n                        seterr(&path, err);\n                        continue;\n                    }",
  "                    Err(err) => {\n                        panic!(\"unexpected file name: {err}\");\n                    }")])
 
+mut("c19_zi_revalidate_returns_bitwise_copy", "C19", "dangling_zone|crash|zone_leak|panic", [(ZI,
+ "                    #[cfg(jiff_verif)]\n                    crate::verif::point(\"zi.get.revalidate_ok\");\n                    return Some(czone.tz.clone());",
+ "                    #[cfg(jiff_verif)]\n                    crate::verif::point(\"zi.get.revalidate_ok\");\n                    return Some(unsafe { czone.tz.copy() });")])
+mut("c19_cc_reset_forgets_entries", "C19", "zone_leak", [(CC,
+ "    fn reset(&mut self) {\n        self.zones.clear();\n    }\n\n    fn scratch",
+ "    fn reset(&mut self) {\n        core::mem::forget(core::mem::take(&mut self.zones));\n    }\n\n    fn scratch")])
+
 # ---- C20 -------------------------------------------------------------
 mut("c20_clone_tzif_no_increment", "C20", "premature_free|double_free", [(TZ,
  "                    unsafe {\n                        Arc::increment_strong_count(ptr.cast::<TzifOwned>());\n                    }\n                    Repr { ptr: self.ptr }",
